@@ -49,8 +49,8 @@ impl Check for C18 {
     }
     fn runs(&self, tier: Tier) -> u64 {
         match tier {
-            Tier::Quick => 300_000,
-            Tier::Thorough => 30_000_000,
+            Tier::Quick => 600_000,
+            Tier::Thorough => 150_000_000,
         }
     }
     fn generate(&self, rng: &mut Rng, index: u64, _tier: Tier) -> Scenario {
@@ -233,10 +233,10 @@ impl Check for C18 {
                 };
                 if entry.is_text() {
                     if let Some(i) = cr {
-                        // the text receivers are only consulted when the byte after CR is ASCII
+                        // a multi-byte character right after the CR: the precondition holds for the
+                        // &str too (a panic here is C03's to report and is skipped below)
                         if b.len() > i + 1 && b[i + 1] >= 0x80 {
-                            st.hit("skip:multibyte_after_cr");
-                            return false;
+                            st.hit("probe:multibyte_after_cr_text_entry");
                         }
                     }
                 }
@@ -336,6 +336,7 @@ impl Check for C18 {
             "probe:cr_then_non_lf_unknown",
             "probe:unknown_extra_fields_ge_5",
             "probe:fragment_then_cr",
+            "probe:multibyte_after_cr_text_entry",
             "probe:no_cr_106",
             "probe:no_cr_107",
             "probe:no_cr_108",
@@ -354,7 +355,7 @@ impl Check for C18 {
     }
     fn assumptions(&self) -> Vec<String> {
         vec![
-            "text entry points are judged only when the byte after the first CR is ASCII (the other case belongs to C03/C16)".into(),
+            "a panic of an entry point is C03's to report; the run is skipped and counted here".into(),
             "a 107-byte buffer whose last byte is its first CR may be incomplete: the precondition demands a byte after the CR".into(),
         ]
     }
